@@ -9,7 +9,7 @@ TRUSTED = [
 ASSUME = [
     "the broadcast layer delivers, for each sender, the same commitment and the same key to every honest receiver, at most once, and for an honest sender what it sent (C02 agreement, C03); the orchestrator forwards only traffic of the session's members (C03 outsiders_inert) and never a party's own messages",
     "SHA-256 commitments are hiding and binding: the theorems speak about order of events and equality checks, not about what an adversary can compute",
-    "'shares that can jointly sign under the reported key' is Props/C01 checked_subset_signs: for sets of exactly t parties it follows from the all-subsets check directly; for larger sets from the keys lying on one polynomial (honest dealing: honest_run_material)",
+    "'shares that can jointly sign under the reported key' is Props/C01 checked_sets_sign: from the all-subsets check alone (no polynomial assumed), for every set of at least t parties that hold the shares their recorded keys belong to (sets of exactly t directly, larger sets by Neville's recursion, Proofs/SubsetCheck.check_extends)",
 ]
 
 def main():
